@@ -110,6 +110,81 @@ struct E4Spec {
     with_start_stop: bool,
 }
 
+/// Leg `e4-nested-combinators`: the root handler is every composition of three leaf actions with
+/// two combinators (`;` and `>>`), in both nestings - in particular the left-nested forms
+/// `(a ; b) >> c` in which a lane is modified in a non-final step of the first operand of
+/// `and_then`. These programs have AST size 5, beyond the quick bound of the general legs.
+fn run_e4_nested(ctx: &Ctx, wall_cap_s: f64) {
+    let t0 = Instant::now();
+    let lv = prog::leaves(0, false);
+    let mut programs: Vec<Program> = vec![];
+    let comb = |k: u8, a: H, b: H| if k == 0 { H::Seq(Box::new(a), Box::new(b)) } else { H::Then(Box::new(a), Box::new(b)) };
+    for a in &lv {
+        for b in &lv {
+            for c in &lv {
+                for k1 in 0..2u8 {
+                    for k2 in 0..2u8 {
+                        for left in [true, false] {
+                            let h = if left { comb(k2, comb(k1, a.clone(), b.clone()), c.clone()) } else { comb(k1, a.clone(), comb(k2, b.clone(), c.clone())) };
+                            let mut p = Program::empty();
+                            p.slots[prog::ROOT] = Some(h);
+                            p.number();
+                            programs.push(p);
+                        }
+                    }
+                }
+            }
+        }
+    }
+    const CHUNK: usize = 128;
+    let work: Vec<usize> = (0..programs.len()).step_by(CHUNK).collect();
+    let results: Vec<Option<ChunkOut>> = vcommon::par_map(&work, vcommon::ncpu(), |_, &s| {
+        if t0.elapsed().as_secs_f64() > wall_cap_s {
+            return None;
+        }
+        let mut out = ChunkOut::default();
+        for p in &programs[s..(s + CHUNK).min(programs.len())] {
+            out.programs += 1;
+            run_program(p, 1, &mut out, false);
+        }
+        Some(out)
+    });
+    let mut tot = ChunkOut::default();
+    let mut skipped = 0;
+    let mut digests: HashSet<u64> = HashSet::new();
+    for r in results {
+        match r {
+            None => skipped += 1,
+            Some(o) => {
+                tot.programs += o.programs;
+                tot.executions += o.executions;
+                tot.steps += o.steps;
+                digests.extend(o.digests);
+                for (sig, expl, cfg) in o.violations {
+                    ctx.violation("e4-nested-combinators", &sig, json!({"cfg": serde_json::to_value(&cfg).unwrap(), "choices": [], "what": expl.lines().next().unwrap_or(""), "input": expl.lines().nth(1).unwrap_or(""), "explanation": expl}));
+                }
+                if !o.machinery.is_empty() {
+                    eprintln!("machinery errors: {:?}", &o.machinery[..o.machinery.len().min(3)]);
+                    vcommon::machinery_failure("C06 E4 nested: execution failed (see above)");
+                }
+            }
+        }
+    }
+    ctx.add_leg(Leg {
+        name: "e4-nested-combinators".into(),
+        engine: "E4-programs".into(),
+        states: tot.programs,
+        transitions: tot.steps,
+        evaluations: tot.executions,
+        distinct_nontrivial: digests.len() as u64,
+        rule: "root handler = every composition of three leaf actions with two combinators (followed_by / and_then) in both nestings; each executed on the canonical schedule and compared with the reference interpreter".into(),
+        samples: vec![],
+        exhaustive: skipped == 0,
+        bounds: json!({"leaves": lv.len(), "shapes": ["(a o b) o c", "a o (b o c)"], "combinators": ["followed_by", "and_then"], "chunks_skipped_by_wall_cap": skipped}),
+        wall_s: t0.elapsed().as_secs_f64(),
+    });
+}
+
 fn run_e4(ctx: &Ctx, spec: E4Spec) {
     let t0 = Instant::now();
     let mut trees = Trees::default();
@@ -494,6 +569,7 @@ fn main() {
         } else {
             E4Spec { name: "e4-command-cascades", min_size: 0, max_size_1: 5, max_size_2: 5, wall_cap_s: 330.0, with_start_stop: false }
         });
+        run_e4_nested(&ctx, if quick { 20.0 } else { 120.0 });
         if !quick {
             // the next size as far as the wall budget allows (reported as not exhaustive when capped)
             run_e4(&ctx, E4Spec { name: "e4-command-cascades-size6", min_size: 6, max_size_1: 6, max_size_2: 0, wall_cap_s: 240.0, with_start_stop: false });
